@@ -223,6 +223,7 @@ struct WorldOut {
     announced: Vec<usize>,
     violations: Vec<String>,
     pools_complete: bool,
+    refreshed_between_phases: bool,
 }
 
 async fn run_world(w: &World) -> WorldOut {
@@ -233,11 +234,12 @@ async fn run_world(w: &World) -> WorldOut {
     };
     ks = ks.with_table(TableDef::new("t1", &[("pk", "bigint")], &[("v", "bigint")])).with_table(TableDef::new("t2", &[("a", "bigint"), ("b", "text")], &[("v", "bigint")]));
     let mut tks = KeyspaceDef::simple("tks", 1).with_table(TableDef::new("tt", &[("pk", "bigint")], &[("v", "bigint")]));
-    tks.initial_tablets = Some(4);
+    // ScyllaDB reports initial_tablets = 0 for `tablets = {'enabled': true}` keyspaces: tablet-based all the same
+    tks.initial_tablets = Some(if w.seed % 3 == 0 { 0 } else { 4 });
     let spec = ClusterSpec { nodes: w.nodes.clone(), keyspaces: vec![ks, tks], cluster_name: "c12".into() };
     let cluster = MockCluster::start(spec, handler.clone()).await;
     *handler.host_ids.lock().unwrap() = cluster.nodes().iter().map(|n| n.host_id).collect();
-    let mut out = WorldOut { build_error: None, ops: vec![], conn_shards: vec![], announced: vec![], violations: vec![], pools_complete: false };
+    let mut out = WorldOut { build_error: None, ops: vec![], conn_shards: vec![], announced: vec![], violations: vec![], pools_complete: false, refreshed_between_phases: false };
     for (i, u) in w.up.iter().enumerate() {
         if !*u {
             cluster.stop_node(i, CloseHow::Rst);
@@ -353,6 +355,11 @@ async fn run_world(w: &World) -> WorldOut {
                 tablet_known(&session, "tks", "tt", w.tablets[ti].last, deadline).await;
                 out.announced.push(ti);
             }
+            // in half of the worlds the metadata is refreshed now: what was learnt about tablets must survive it
+            if w.seed % 2 == 1 {
+                let _ = tokio::time::timeout(Duration::from_secs(20), session.refresh_metadata()).await;
+                out.refreshed_between_phases = true;
+            }
         }
     }
     for i in 0..w.nodes.len() {
@@ -439,6 +446,9 @@ fn judge(o: &mut Outcome, w: &World, r: &WorldOut) {
             continue;
         }
         o.class(&format!("{what}:first-attempt-at-replica"));
+        if tablet_table && r.refreshed_between_phases {
+            o.class("tablet:followed-after-a-metadata-refresh");
+        }
         if !in_pref.is_empty() {
             o.class("first-attempt-in-preferred-dc");
         }
@@ -565,7 +575,7 @@ async fn run_late_joiner(seed: u64) -> LateOut {
     let mut out = LateOut { error: None, tu_first, failover, shards, tablets_tt: vec![], ops: vec![], announced_tt: vec![], tu_announced: false, l_conn_shards: vec![], violations: vec![] };
     let handler = Arc::new(HLate { tablets: Mutex::new([vec![], vec![]]), host_ids: Mutex::new(vec![]), frames: Mutex::new(HashMap::new()), announced: Mutex::new(vec![]) });
     let mut tks = KeyspaceDef::simple("tks", 1).with_table(TableDef::new("tt", &[("pk", "bigint")], &[("v", "bigint")])).with_table(TableDef::new("tu", &[("pk", "bigint")], &[("v", "bigint")]));
-    tks.initial_tablets = Some(4);
+    tks.initial_tablets = Some(if seed % 2 == 0 { 0 } else { 4 });
     let spec = ClusterSpec { nodes: vec![sharded("dc0", shards[0], -3_000_000_000_000_000_000), sharded("dc1", shards[1], 3_000_000_000_000_000_000)], keyspaces: vec![tks], cluster_name: "c12-late".into() };
     let cluster = MockCluster::start(spec, handler.clone()).await;
     let late = cluster.add_node(sharded("dc0", shards[2], 0), false).await;
@@ -783,7 +793,7 @@ pub fn run(ctx: &Ctx) -> Outcome {
             out.require_class(c);
         }
     }
-    for c in ["strategy:simple", "strategy:nts", "preference:dc", "preference:none", "some-nodes-down", "vnode:first-attempt-at-replica", "vnode:owning-shard", "tablet:first-attempt-at-replica", "tablet:owning-shard", "first-attempt-in-preferred-dc", "unsharded-node"] {
+    for c in ["strategy:simple", "strategy:nts", "preference:dc", "preference:none", "some-nodes-down", "vnode:first-attempt-at-replica", "vnode:owning-shard", "tablet:first-attempt-at-replica", "tablet:followed-after-a-metadata-refresh", "tablet:owning-shard", "first-attempt-in-preferred-dc", "unsharded-node"] {
         out.require_class(c);
     }
     out
